@@ -127,6 +127,13 @@ func Cell(c string) {}
 // Unwind sets the loop unwinding bound for the rest of the path.
 func Unwind(n int) {}
 
+// Bounded declares that the code executed from here on must finish within `steps` interpreted
+// SSA instructions and `depth` additional nested calls; exceeding either on a feasible path is
+// a violation with message msg (non-termination / stack exhaustion within the bound).
+// Bounded(0, 0, "") switches the bound off. Natively a no-op: a replay of a violating input
+// hangs or overflows the stack, which the replay driver reports as reproduced.
+func Bounded(steps int, depth int, msg string) {}
+
 // Native reports whether the harness is running natively (replay).
 func Native() bool { return true }
 
